@@ -1,4 +1,4 @@
-import FeatherModel.Lemmas.ClassWriteFullCodePool
+import FeatherModel.Lemmas.ClassWriteFullCodeInsnPool
 import FeatherModel.Lemmas.ClassWriteFullCodeResolve
 
 /-!
@@ -23,7 +23,6 @@ theorem cw_maxSize {cp : Nat} {ri : ClassRead.Insn} {i : CodeWrite.Insn} (h : cw
     simp only [cw, Option.map_eq_some_iff] at h
     obtain ⟨c, hc, rfl⟩ := h
     simp [maxSizeR, cw, hc, maxSize]
-  | invokedynamic d => cases h
   | _ => cases h; rfl
 
 theorem maxSizeR_mapT (f : Nat → Nat) (ri : ClassRead.Insn) : maxSizeR (mapT f ri) = maxSizeR ri := by
@@ -41,26 +40,26 @@ theorem CwAll.sizes {rcs : List (ClassRead.Insn × Nat)} {is : List CodeWrite.In
 
 /-- **the pool puts of all instructions** -/
 theorem putInsns_spec {lab : Nat → Nat} : ∀ (es : List InsnEntry) {p p' : Pool} {bs bs' : List Bsm} {is : List CodeWrite.Insn},
-    Good p → (∀ e ∈ es, insnOk e.insn) → putInsns lab p bs es = .ok (is, p', bs') →
-    bs' = bs ∧ Step p p' ∧ ∃ rcs : List (ClassRead.Insn × Nat), rcs.map (·.1) = es.map (fun e => mapT lab e.insn) ∧
+    Good p → BsOk bs → (∀ e ∈ es, insnOk e.insn) → putInsns lab p bs es = .ok (is, p', bs') →
+    (Step p p' ∧ BsExt bs bs' ∧ BsOk bs') ∧ ∃ rcs : List (ClassRead.Insn × Nat), rcs.map (·.1) = es.map (fun e => mapT lab e.insn) ∧
       CwAll rcs is ∧ (∀ x ∈ rcs, x.2 < 65536) ∧
       (∀ e ∈ es, ∀ op t, e.insn = .branch op t → isCondBranchOp op = true) ∧
-      ∀ x ∈ rcs, Sound p' (fun rp => ∀ bsms, poolPart rp bsms x.2 x.1)
-  | [], p, p', bs, bs', is, hg, _, h => by
+      ∀ x ∈ rcs, Sound2 p' bs' (fun rp bsms => poolPart rp bsms x.2 x.1)
+  | [], p, p', bs, bs', is, hg, hb, _, h => by
     have := ok_inj.mp h
     simp only [Prod.mk.injEq] at this
     obtain ⟨rfl, rfl, rfl⟩ := this
-    exact ⟨rfl, Step.refl hg, [], rfl, CwAll.nil, by simp, by simp, by simp⟩
-  | e :: es, p, p', bs, bs', is, hg, hok, h => by
+    exact ⟨⟨Step.refl hg, BsExt.refl _, hb⟩, [], rfl, CwAll.nil, by simp, by simp, by simp⟩
+  | e :: es, p, p', bs, bs', is, hg, hb, hok, h => by
     obtain ⟨⟨i, p1, bs1⟩, h1, h⟩ := bind_eq_ok.mp h
     obtain ⟨⟨is', p2, bs2⟩, h2, h⟩ := bind_eq_ok.mp h
     have := pure_eq_ok.mp h
     simp only [Prod.mk.injEq] at this
     obtain ⟨rfl, rfl, rfl⟩ := this
-    obtain ⟨rfl, s1, cp, hcw, hcp, hbr, hsd⟩ := putInsn_spec hg (hok e List.mem_cons_self) h1
-    obtain ⟨rfl, s2, rcs, hm, hall, hcps, hbrs, hsds⟩ := putInsns_spec es s1.good
+    obtain ⟨⟨s1, e1, o1⟩, cp, hcw, hcp, hbr, hsd⟩ := putInsn_spec hg hb (hok e List.mem_cons_self) h1
+    obtain ⟨⟨s2, e2, o2⟩, rcs, hm, hall, hcps, hbrs, hsds⟩ := putInsns_spec es s1.good o1
       (fun x hx => hok x (List.mem_cons_of_mem _ hx)) h2
-    refine ⟨rfl, s1.trans s2, (mapT lab e.insn, cp) :: rcs, by simp [hm], CwAll.cons hcw hall, ?_, ?_, ?_⟩
+    refine ⟨⟨s1.trans s2, e1.trans e2, o2⟩, (mapT lab e.insn, cp) :: rcs, by simp [hm], CwAll.cons hcw hall, ?_, ?_, ?_⟩
     · intro x hx
       rcases List.mem_cons.mp hx with rfl | hx
       · exact hcp
@@ -71,7 +70,7 @@ theorem putInsns_spec {lab : Nat → Nat} : ∀ (es : List InsnEntry) {p p' : Po
       · exact hbrs x hx
     · intro x hx
       rcases List.mem_cons.mp hx with rfl | hx
-      · exact hsd.mono s2.le
+      · exact hsd.mono s2.le e2
       · exact hsds x hx
 
 theorem sinsnsOf_length (rcs : List (ClassRead.Insn × Nat)) : (sinsnsOf rcs).length = rcs.length := by simp [sinsnsOf]
